@@ -388,7 +388,14 @@ EXTRA_TEXT = {
            'blank and tab as blanks.',
     'C02': 'A namespace source that is modified in place through self '
            '(template variables) is never a mutable class-level default '
-           'left unbound by the initialiser.',
+           'left unbound by the initialiser; a keyword-only '
+           '_.namespace(...) keeps its values in a plain mapping (they '
+           'are not called when read).',
+    'C11': 'The orphan rule of opt() holds on every path: a window end '
+           'computed from the size is the last element or leaves >= '
+           'orphan elements after it, a start computed from the size is '
+           '1 or leaves >= orphan elements before it (zone with ghost '
+           'variables x + orphan).',
     'C06': 'Tags are classified only through the wrapper that resolves '
            'lazily registered commands (no raw parseTag call in the '
            'parser); single-character indexes of the scanner lie inside '
@@ -444,6 +451,8 @@ EXTRA_TECH = {
     'C20': 'constant folding of the translation tables; partial string '
            'evaluation of the link formats',
     'C09': 'DFA-valued shape domain for the compiled tuples',
+    'C11': 'zone (difference-bound) abstract interpretation of opt() '
+           'with ghost sums',
 }
 NA = {
     'C16': 'numerical identities over run-time data (sums, means, n vs n-1, '
